@@ -167,7 +167,7 @@ CHECKS = {
     },
     "C33": {
         "level": "exploration",
-        "rule": ("same plans as C14 (cmd-framing) with deadlines and cancellations on a third of the calls, tiny write buffers and a bounded socket "
+        "rule": ("same plans as C14 (cmd-framing; half of the RESP3 plans also issue cached MGETs, whose CLIENT CACHING / MULTI / PTTL / rewritten MGET / EXEC commands the client builds itself from the same pool) with deadlines and cancellations on a third of the calls, tiny write buffers and a bounded socket "
                  "send buffer so that commands are still queued or half written when their caller abandons the call and immediately builds new "
                  "commands from the recycled pool; every frame the model decodes must be exactly an argv some task built; "
                  "non-trivial = two calls overlapped; distinct = distinct event-log hash"),
